@@ -79,6 +79,7 @@ package meta
 //@   property C05 C13
 //@   requires wfRangeO(r, v)
 //@   assigns nothing
+//@   decreases rangeable(v) ? 0 : 1
 //@   loop 1 invariant rangeableList(v) && 0 <= i && i <= llen(v)
 //@   loop 1 invariant forall j int :: 0 <= j && j < i ==> okRange(r, litem(v, j))
 //@   loop 1 decreases llen(v) - i
